@@ -20,8 +20,40 @@
 size_t vf_cons_calls, vf_dest_calls, vf_xtor_next;
 _Bool vf_xtor_bad;
 
-size_t vf_w_size, vf_w_cap, vf_w_len, vf_w_g, vf_w_h, vf_w_pos, vf_w_n;
+size_t vf_w_size, vf_w_cap, vf_w_len, vf_w_g, vf_w_h, vf_w_pos, vf_w_n, vf_w_k;
 
+#ifndef VF_NATIVE
+/* strlen / wcslen as contract models (assumed libc behaviour): the result is the index of a NUL
+ * inside the live object, and no character before it is NUL -- stated for the ghost index
+ * vf_len_k (arbitrary, so for every index).  CBMC's own models are unbounded loops. */
+size_t vf_len_k;
+#define VF_LEN_MODEL(NAME, T)                                                                     \
+size_t NAME(const T * str)                                                                        \
+{                                                                                                 \
+    size_t n = nondet_size_t();                                                                   \
+    __CPROVER_assert(__CPROVER_r_ok(str, sizeof(T)), #NAME ": argument points into a live object"); \
+    __CPROVER_assume(n < (__CPROVER_OBJECT_SIZE(str) - __CPROVER_POINTER_OFFSET(str)) / sizeof(T)); \
+    __CPROVER_assume(str[n] == 0);                                                                \
+    __CPROVER_assume(!(vf_len_k < n) || str[vf_len_k] != 0);                                      \
+    return n;                                                                                     \
+}
+VF_LEN_MODEL(strlen, char)
+VF_LEN_MODEL(wcslen, wchar_t)
+#endif
+/* part of the loop invariant of insert_ch's fill loop (spec/loops/string.lc): the characters
+ * outside the gap keep the values they had at loop entry (ghost indices g, h) */
+#ifdef VF_S_EMPTY
+#define VF_ICH_KEEP 1
+#else
+#define VF_ICH_D ((cstl_STRING_char_t *)s->v.elem.base)
+#define VF_ICH_KEEP ((vf_w_g < __CPROVER_loop_entry(idx) ==> VF_ICH_D[vf_w_g] == __CPROVER_loop_entry(VF_ICH_D[vf_w_g])) && \
+                     ((vf_w_h >= __CPROVER_loop_entry(idx) && vf_w_h < vf_w_size) ==> VF_ICH_D[vf_w_h + __CPROVER_loop_entry(cnt)] == __CPROVER_loop_entry(VF_ICH_D[vf_w_h + cnt])))
+#endif
+#ifdef VF_S_EMPTY
+#define VF_RSZ_KEEP 1
+#else
+#define VF_RSZ_KEEP ((vf_w_g < n && vf_w_g < __CPROVER_loop_entry(sz)) ==> VF_ICH_D[vf_w_g] == __CPROVER_loop_entry(VF_ICH_D[vf_w_g]))
+#endif
 #include "vector.c"
 #include "string.c"
 
@@ -70,6 +102,18 @@ void h_substr_prep(void) { struct XST * s; size_t pos = VF_IN_SIZE(pos); size_t 
 void h_resize0(void) { struct XST * s; size_t n = VF_IN_SIZE(n); S_WIT_IN(); XSN(__resize)(s, n); VF_END(); }
 void h_erase(void) { struct XST * s; size_t pos = VF_IN_SIZE(pos), len = VF_IN_SIZE(len); S_WIT_IN(); XSN(erase)(s, pos, len); VF_END(); }
 void h_prep_insert(void) { struct XST * s; size_t pos = VF_IN_SIZE(pos), len = VF_IN_SIZE(len); S_WIT_IN(); XSN(prep_insert)(s, pos, len); VF_END(); }
+/* modular form: prep_insert is replaced, so realloc/memmove do not run; ghost window 1 follows the
+ * inserted character k of the source in the memcpy */
+#if defined(VF_INS_NEW) && defined(VF_ASSUMED_POST)
+#define S_WIT_K() do { VF_IN_SIZE(k); vf_keep_off = vf_w_k * XCHSZ; } while (0)
+#else
+#define S_WIT_K() do { } while (0)
+#endif
+void h_insert_str_n(void) { struct XST * s; size_t pos = VF_IN_SIZE(pos), len = VF_IN_SIZE(len); const void * str; S_WIT_IN(); S_WIT_K(); XSN(insert_str_n)(s, pos, str, len); VF_END(); }
+void h_insert(void) { struct XST * s, * ins; size_t pos = VF_IN_SIZE(pos); VF_IN_SIZE(len); S_WIT_IN(); VF_IN_SIZE(k); XSN(insert)(s, pos, ins); VF_END(); }
+void h_insert_ch(void) { struct XST * s; size_t pos = VF_IN_SIZE(pos), len = VF_IN_SIZE(len); VF_IN_SIZE(k); S_WIT_IN(); XSN(insert_ch)(s, pos, len, (int)nondet_int()); VF_END(); }
+void h_resize(void) { struct XST * s; size_t n = VF_IN_SIZE(n); VF_IN_SIZE(k); S_WIT_IN(); XSN(resize)(s, n); VF_END(); }
+void h_substr(void) { struct XST * s, * sub; size_t pos = VF_IN_SIZE(pos), len = VF_IN_SIZE(len); S_WIT_IN(); XSN(substr)(s, pos, len, sub); VF_END(); }
 void h_at(void) { struct XST * s; size_t pos = VF_IN_SIZE(pos); S_WIT_IN(); XSN(at)(s, pos); VF_END(); }
 void h_str(void) { struct XST * s; S_WIT_IN(); XSN(str)(s); VF_END(); }
 #endif
